@@ -404,13 +404,13 @@ def sdss_objid(run, camcol, field, objnum, rerun=301, skyversion=None,
     #
     # Compute the objid
     #
-    objid = ((skyversion << 59) |
-             (rerun << 48) |
-             (run << 32) |
-             (camcol << 29) |
-             (firstfield << 28) |
-             (field << 16) |
-             (objnum))
+    objid = ((skyversion.astype(np.int64) << 59) |
+             (rerun.astype(np.int64) << 48) |
+             (run.astype(np.int64) << 32) |
+             (camcol.astype(np.int64) << 29) |
+             (firstfield.astype(np.int64) << 28) |
+             (field.astype(np.int64) << 16) |
+             (objnum.astype(np.int64)))
     return objid
 
 
